@@ -1,8 +1,11 @@
 """C10 -- ObservableMemory notifies exactly the subscribers of an address, once, in order.
 
 Proof level: the theorems of lean/Py65/Props/C10.lean hold of the hand-written model
-lean/Py65/Model/ObsMem.lean for ALL histories.  This module is the tie of that model to the real
-class (correspondence, DESIGN.md section 2.6) and the failing-input search:
+lean/Py65/Model/ObsMem.lean for ALL histories; lean/Py65/Props/C10g.lean restates them for the model
+REGENERATED from the current py65/memory.py (tie 1: harness/py2lean_mem.py -> lean/Py65/Gen/ObsMemGen.lean,
+run by `pre_build`; lean/Py65/Proofs/ObsMemGenEq.lean proves generated = hand model).  This module also is
+tie 2 of the hand model to the real class (correspondence, DESIGN.md section 2.6) and the failing-input
+search:
 
  * random histories (subscribe_to_read/_write with arbitrary address iterables, item and slice
    reads/writes, bulk writes; both mask sizes; aliasing, negative and huge addresses; repeated
@@ -20,38 +23,103 @@ import multiprocessing
 import os
 import random
 
+import subprocess
+import sys
+
 import common
 from common import bg, run_driver
 
+# generated = hand model, one theorem per translated definition (lean/Py65/Proofs/ObsMemGenEq.lean)
+GEN_EQ_THEOREMS = ['Py65.Proofs.ObsMemGenEq.' + t for t in (
+    'init_eq', 'init_none_eq', 'init_defaults', 'setitem_int_eq', 'getitem_int_eq', 'setitem_slice_eq',
+    'getitem_slice_eq', 'subscribe_to_write_eq', 'subscribe_to_read_eq', 'write_eq', 'apply_eq', 'run_eq',
+    'obsStep_eq', 'replayObs_eq')]
+
+
+def pre_build(ctx):
+    """Tie 1 for py65/memory.py: regenerate lean/Py65/Gen/ObsMemGen.lean from the current source
+    (called by check.py inside the build lock, before `lake build`).  Shared with C11."""
+    rep = os.path.join(ctx.work, 'py2lean_mem.json')
+    env = dict(os.environ, PYTHONPATH=common.REPO)
+    p = subprocess.run([sys.executable, os.path.join(os.path.dirname(os.path.dirname(os.path.abspath(__file__))),
+                                                     'py2lean_mem.py'),
+                        '--out', os.path.join(common.LEAN, 'Py65', 'Gen'), '--report', rep],
+                       stdout=subprocess.PIPE, stderr=subprocess.STDOUT, env=env, timeout=120)
+    out = p.stdout.decode('utf-8', 'replace')
+    r = {}
+    try:
+        r = json.load(open(rep))
+    except Exception:
+        pass
+    if p.returncode != 0 or not r.get('ok'):
+        ctx.broken.append(dict(
+            kind='translator', what='py2lean_mem refused py65/memory.py (no regenerated ObservableMemory model: '
+                                    'Py65/Gen/ObsMemGen.lean is now a stub that does not check, so ObsMemGenEq and '
+                                    'the C10g/C11g theorems are unproved for this source)',
+            detail=('%s%s%s' % (r.get('error') or out[-1500:],
+                                ' at %s' % r['where'] if r.get('where') else '',
+                                ' in %s' % r['function'] if r.get('function') else ''))[-1500:],
+            where=r.get('where'), function=r.get('function')))
+        return None
+    ctx.stats['translator'] = dict(source='py65/memory.py', definitions=r.get('definitions'),
+                                   functions=r.get('functions'), rewritten=r.get('written'),
+                                   source_sha256=r.get('source_sha256'))
+    if r.get('written'):
+        ctx.note('py2lean_mem: Py65/Gen/ObsMemGen.lean changed (memory.py differs from the committed translation)')
+    return r
+
 ID = 'C10'
-LEAN_MODULES = ['Py65.Props.C10']
-NAMESPACES = ['Py65.Props.C10']
+# Props.C10: the property theorems about the hand model; Proofs.ObsMemGenEq: the model REGENERATED from
+# the current py65/memory.py (harness/py2lean_mem.py, run by pre_build below) equals the hand model;
+# Props.C10g: the property theorems restated for the regenerated definitions.
+LEAN_MODULES = ['Py65.Props.C10', 'Py65.Proofs.ObsMemGenEq', 'Py65.Props.C10g']
+NAMESPACES = ['Py65.Props.C10', 'Py65.Proofs.ObsMemGenEq', 'Py65.Props.C10g']
 LEVEL = 'proof'
 USES_GEN = False
 RULE = ('a history counts as non-trivial when at least one subscriber callback was called in it; '
         'distinct = distinct (address width, sequence of operation kinds, sequence of '
         '(callback id, read/write, replied None/0/other) of the calls made) tuples among those')
 TRUSTED = [
-    'hand model lean/Py65/Model/ObsMem.lean (memory.py transcribed line by line; callbacks are opaque '
-    'ids answered by an oracle function) -- tied to py65.memory.ObservableMemory only by this sampled '
-    'correspondence (exact comparison of returned values, complete call log, touched cells, len(_subject))',
-    'Python facts modelled, not verified: defaultdict/setdefault, `callback not in list` as object '
-    'identity, slice.indices, range, zip, list slice assignment',
+    'tie 1 (regeneration): harness/py2lean_mem.py parses py65/memory.py with `ast` on every run and writes '
+    'lean/Py65/Gen/ObsMemGen.lean (every method of ObservableMemory except __getattr__, statement by '
+    'statement: masks, comparisons, `&=`, the order mask / look-up / loop / store, the `is None` tests, loop '
+    'bodies, slice bounds, default arguments); it refuses (exit 3 -> broken tie) any construct, attribute, '
+    'method or call outside its enumerated subset.  lean/Py65/Proofs/ObsMemGenEq.lean proves generated = '
+    'hand model for ALL arguments; Props/C10g.lean restates the property theorems for the generated '
+    'definitions.  Trusted here: the translator itself (evaluation order of the accepted subset, the typing '
+    'of the parameters: int / slice index, list of ints, callback) -- it is additionally validated every run '
+    'by tie 2, because generated = hand model is proved and hand model = real class is sampled',
+    'modelled, not regenerated (library behaviour, lean/Py65/Model/PyData.lean and sliceIndices in '
+    'Model/ObsMem.lean): defaultdict(list) / setdefault (absent key = empty list, the returned list aliases '
+    'the entry), `callback not in list` as object identity, list.append, slice.indices + range, zip, len, '
+    'n * [c], list item assignment, list slice assignment (Py.listSliceAssign); and the hand-written prelude '
+    '`call` printed verbatim by the translator: a callback call is answered by the oracle `reply` and '
+    'appended to the call log',
+    'tie 2 (sampled correspondence): hand model lean/Py65/Model/ObsMem.lean vs py65.memory.ObservableMemory '
+    '(exact comparison of returned values, complete call log, touched cells, len(_subject))',
     'harness/props/c10.py: generator, canonicaliser, the seeded reply rule (reproduced in '
     'Py65/Driver/Obs.lean) and the independent property oracle',
 ]
 ASSUMPTIONS = [
     'the backing list is a Python list of the default length physMask+1 (what ObservableMemory() creates '
-    'itself, and what the harness passes as subject=)',
+    'itself -- generated __init__ with subject=None, theorem C10g.init_default -- and what the harness passes '
+    'as subject=)',
     'callbacks are distinct Python objects per id (registration identity = object identity), take '
     '(address) / (address, value) and return None or an int; they do not raise and do not re-enter the memory',
-    'slice step 0 raises ValueError before any element is touched (modelled); no other exception is modelled',
-    '__getattr__ delegation to the backing list is outside the property and not modelled',
+    'slice step 0 raises ValueError before any element is touched (modelled); no other exception is modelled '
+    '(in particular no IndexError: item access masks the address first)',
+    'address collections, slice-assignment values and bulk-write data are modelled as finite lists of ints',
+    '__getattr__ delegation to the backing list is outside the property and not modelled (the translator '
+    'only checks that it is still the plain delegation)',
 ]
 EXPECTED_THEOREMS = [
     'Py65.Props.C10.subs_spec', 'Py65.Props.C10.get_calls', 'Py65.Props.C10.set_chain',
     'Py65.Props.C10.no_subs_silent', 'Py65.Props.C10.subscribe_idempotent',
     'Py65.Props.C10.slice_elementwise', 'Py65.Props.C10.bulk_write_silent',
+] + GEN_EQ_THEOREMS + [
+    'Py65.Props.C10g.subs_spec', 'Py65.Props.C10g.get_calls', 'Py65.Props.C10g.set_chain',
+    'Py65.Props.C10g.no_subs_silent', 'Py65.Props.C10g.subscribe_idempotent',
+    'Py65.Props.C10g.slice_elementwise', 'Py65.Props.C10g.bulk_write_silent', 'Py65.Props.C10g.init_default',
 ]
 
 MASK = {16: 0xffff, 32: 0x3ffff}
